@@ -34,7 +34,10 @@ def decode(data: bytes) -> dict:
         elif r < 6:
             case["events"].append({"e": "cmd", "c": c, "k": d.i(0, len(CMDS) - 1)})
         elif r < 7:
-            case["events"].append({"e": "pipeline", "c": c, "k": d.i(0, len(CMDS) - 1), "k2": d.i(0, len(CMDS) - 1)})
+            if d.p(0.5):
+                case["events"].append({"e": "pipeline", "c": c, "k": d.i(0, len(CMDS) - 1), "k2": d.i(0, len(CMDS) - 1)})
+            else:
+                case["events"].append({"e": "block", "c": c})
         else:
             case["events"].append({"e": "disc", "c": c, "how": d.pick(["close", "eof", "abort", "reset"])})
     case["stop_at"] = d.i(0, len(case["events"]))
@@ -48,6 +51,7 @@ class Client:
         self.r: Optional[asyncio.StreamReader] = None
         self.w: Optional[asyncio.StreamWriter] = None
         self.shaken = False
+        self.blocked = False
 
 
 class C19Engine(Engine):
@@ -215,6 +219,7 @@ class C19Engine(Engine):
                             fail("connect/refused-while-serving", repr(e))
                         continue
                     c.shaken = False
+                    c.blocked = False
                     if ev.get("handshake", True):
                         hs = json.dumps({"terminal_width": 80}).encode() + b"\n"
                         if ev.get("split"):
@@ -251,6 +256,23 @@ class C19Engine(Engine):
                     await ask(c, ev["k"])
                     if stopped:
                         c.shaken = False       # that session may legitimately have ended after this line
+                elif ev["e"] == "block":
+                    if c.w is None or not c.shaken or stopped or getattr(c, "blocked", False):
+                        continue
+                    # a command whose method waits (nobody closes the pool here): no reply now, and nobody else is held up
+                    try:
+                        c.w.write(b"until-closed\n")
+                        await c.w.drain()
+                    except (ConnectionError, OSError):
+                        continue
+                    c.blocked = True  # type: ignore[attr-defined]
+                    c.shaken = False          # this session is busy from now on
+                    labels.add("client-blocked-in-until-closed")
+                    await asyncio.sleep(0.01)
+                    for o in clients:
+                        if o is not c and o.w is not None and o.shaken:
+                            await ask(o, 0)
+                            labels.add("served-while-another-client-blocks")
                 elif ev["e"] == "pipeline":
                     if c.w is None or not c.shaken or stopped:
                         continue
@@ -277,6 +299,8 @@ class C19Engine(Engine):
                     if c.w is None:
                         continue
                     labels.add("disconnect:" + ev["how"])
+                    if getattr(c, "blocked", False):
+                        state["left_while_blocked"] = True
                     try:
                         if ev["how"] == "eof" and c.w.can_write_eof():
                             c.w.write_eof()
@@ -313,6 +337,8 @@ class C19Engine(Engine):
                 await do_stop()
             # every client leaves
             for c in clients:
+                if c.w is not None and getattr(c, "blocked", False):
+                    state["left_while_blocked"] = True
                 if c.w is not None:
                     try:
                         c.w.close()
@@ -321,7 +347,7 @@ class C19Engine(Engine):
                         pass
                     c.r = c.w = None
             try:
-                await asyncio.wait_for(asyncio.shield(task), BOUND)
+                await asyncio.wait_for(asyncio.shield(task), 1.0 if state.get("left_while_blocked") else BOUND)
             except asyncio.TimeoutError:
                 # structural witness: no client transport open, task not done, loop idle on consecutive polls
                 idle = 0
@@ -331,7 +357,12 @@ class C19Engine(Engine):
                     if not loop._ready and not task.done():  # type: ignore[attr-defined]
                         idle += 1
                 if idle >= 4 and not task.done():
-                    fail("stop/serving-task-never-completes", "all clients gone, task cancelled, not done after %.0fs" % BOUND)
+                    if state.get("left_while_blocked"):
+                        # open finding D10: a client that leaves while its session waits in a blocking command is never noticed
+                        fail("stop/never-completes-client-left-during-waiting-command",
+                             "a client sent until-closed and disconnected; serving task cancelled, not done after %.0fs" % BOUND)
+                    else:
+                        fail("stop/serving-task-never-completes", "all clients gone, task cancelled, not done after %.0fs" % BOUND)
                 else:
                     state["inconclusive"] = "serving task slow to complete"
                 return
